@@ -69,7 +69,7 @@ Ltac resok_leaf :=
 
 Ltac ht known :=
   repeat first
-    [ apply tr_failm | apply tr_rt_error | apply tr_error_cls | (eapply tr_true; apply tr_ret)
+    [ (apply tr_failm; okf) | apply tr_rt_error | apply tr_error_cls | (eapply tr_true; apply tr_ret)
     | match goal with |- tr _ (ret _) (fun r s => resok r s) => eapply tr_post; [apply tr_ret | try solve [resok_leaf]] end
     | known
     | (apply tr_hn_true; [stab2 | solve [hnt hknown]])
@@ -113,7 +113,7 @@ Proof. intros SP. unfold eval_cmp. cbv zeta. ht evk. Qed.
 Lemma tr_cast_prim (P : st -> Prop) t c p target : stable P -> tr P (cast_prim t c p target) (fun p' s => (forall tn k, p' <> PRec tn k) /\ payload_kind p' = target /\ pname p' = None).
 Proof.
   intros SP. unfold cast_prim.
-  repeat first [ apply tr_rt_error | apply tr_failm
+  repeat first [ apply tr_rt_error | (apply tr_failm; okf)
                | match goal with
                  | |- tr _ (ret _) _ => eapply tr_post; [apply tr_ret | intros ? ? [-> _]; split; [intros ? ?; discriminate|split; reflexivity]]
                  | |- tr _ (bind _ _) _ => eapply tr_bind with (Q := fun _ _ => True); [stab2 | apply tr_hn_true; [stab2 | unfold prim_to_string; hnt hknown] | intros ?]
@@ -123,7 +123,7 @@ Qed.
 Lemma tr_implicit_cast (P : st -> Prop) ty r : stable P -> (forall s, P s -> resok r s) -> tr P (implicit_cast ty r) (fun r' s => resok r' s).
 Proof.
   intros SP HR. unfold implicit_cast, as_int, as_str, as_char.
-  repeat first [ apply tr_failm | (apply tr_ret_prim; reflexivity)
+  repeat first [ (apply tr_failm; okf) | (apply tr_ret_prim; reflexivity)
                | match goal with
                  | |- tr _ (ret r) _ => eapply tr_post; [apply tr_ret | intros ? ? [-> Hs]; apply HR; tauto]
                  | |- tr _ (bind _ _) _ => eapply tr_bind with (Q := fun _ _ => True); [stab2 | apply tr_hn_true; [stab2 | hnt hknown] | intros ?]
@@ -132,5 +132,5 @@ Proof.
                  end ].
 Qed.
 Lemma tr_as_payload (P : st -> Prop) r : tr P (as_payload r) (fun p s => r_val r = Some p).
-Proof. unfold as_payload. destruct (r_val r) as [p|]; [eapply tr_post; [apply tr_ret|]; intros a s [-> _]; reflexivity|apply tr_failm]. Qed.
+Proof. unfold as_payload. destruct (r_val r) as [p|]; [eapply tr_post; [apply tr_ret|]; intros a s [-> _]; reflexivity|(apply tr_failm; okf)]. Qed.
 End Level3.
